@@ -52,6 +52,7 @@ func checkC10(p *Program, r *Report) {
 	c10Hashable(p, r, m, sums)
 	c10Unchanged(p, r, m, sums)
 	c10Missing(p, r, m)
+	c10FoundEntryReturned(p, r, m, "C10.R5")
 	c10WriteBack(p, r, m, sums)
 	c10Make(p, r, m, sums)
 	c10Applied(p, r, m, sums)
@@ -1708,4 +1709,60 @@ func isSizeTestChain(x, b *ssa.BasicBlock) bool {
 		x = x.Preds[0]
 	}
 	return false
+}
+
+// c10FoundEntryReturned: in the map read helper, once MapIndex has been made, the nil value is returned only for a missing key
+// (the invalid result): evaluated with the not-found test decided as "found", no return of the shared nil value after the
+// MapIndex call is reachable. An entry that exists and holds a typed nil (a nil *T, a nil slice) must come back as that typed
+// nil: read through an interface{} parameter, or returned to the host, it is otherwise the untyped nil.
+func c10FoundEntryReturned(p *Program, r *Report, m *vmModel, rule string) {
+	n := 0
+	for _, fn := range m.fns {
+		sg := fn.Signature
+		if sg.Recv() != nil || sg.Params().Len() != 2 || sg.Results().Len() != 1 || !isReflectValue(sg.Results().At(0).Type()) || len(fn.Blocks) == 0 {
+			continue
+		}
+		var mi *ssa.Call
+		for _, b := range fn.Blocks {
+			for _, in := range b.Instrs {
+				if c, ok := in.(*ssa.Call); ok && reflectMethod(c) == "MapIndex" {
+					mi = c
+				}
+			}
+		}
+		if mi == nil {
+			continue
+		}
+		world := map[ssa.Value]bool{}
+		for _, b := range fn.Blocks {
+			for _, in := range b.Instrs {
+				if c, ok := in.(*ssa.Call); ok && reflectMethod(c) == "IsValid" && derivesFromCall(c.Call.Args[0], mi, 0) {
+					world[c] = true
+				}
+			}
+		}
+		if len(world) == 0 {
+			continue // no not-found test at all: reported by the not-found rule
+		}
+		reach := worldReachFrom(fn, mi.Block(), world)
+		k := 0
+		for _, b := range fn.Blocks {
+			ret, ok := b.Instrs[len(b.Instrs)-1].(*ssa.Return)
+			if !ok || !(mi.Block() == b || mi.Block().Dominates(b)) {
+				continue
+			}
+			u, ok := ret.Results[0].(*ssa.UnOp)
+			if !ok {
+				continue
+			}
+			if g, ok := u.X.(*ssa.Global); !ok || g != m.nilValueGlobal() {
+				continue
+			}
+			k++
+			n++
+			r.Check(!reach[b], rule, fmt.Sprintf("%s|nil value #%d only for a missing key", fn.Name(), k), p.Pos(instrPos(ret)), "unreachable once the entry was found",
+				"the shared nil value is returned although MapIndex found an entry: an entry holding a typed nil (a nil pointer, slice, map, func of a Go type) reads back as the untyped nil and loses its dynamic type")
+		}
+	}
+	r.Floor(rule, n, 1)
 }
